@@ -244,7 +244,7 @@ Proof.
       apply mbind_ok in H as (tf & s4 & E4 & H). apply c12_go_field_name in E4 as ->.
       apply mbind_ok in H as (ssn & s5 & E5 & H).
       assert (s5 = s1) as ->.
-      { destruct (original (eid sh)) as [|c0 r0]; [discriminate E5|]. destruct (N.ltb c0 128); [|discriminate E5]. c12_go_ret E5. reflexivity. }
+      { c12_go_ret E5. reflexivity. }
       apply mbind_ok in H as (ta & s6 & E6 & H). apply c12_go_acr in E6 as ->.
       apply mbind_ok in H as (vs & s7 & Evs & H). c12_go_ret H.
       apply (c12_mmapM_mono c12_gle c12_gle_refl c12_gle_trans _ c12_go_Qv) in Evs as [L2 Q2].
